@@ -48,6 +48,36 @@ harness! {
     }
 }
 
+harness! {
+    /// kind=bounded tier=quick bound="LONG inputs (block-wise rewrites only show beyond a block): any bytes, length 17..=20; whitespace trims against the maximal-run reference; starts_with / ends_with / strip_prefix / strip_suffix and trim_start/end_matches with a one-byte pattern against the prefix / repetition references"
+    #[kani::unwind(23)]
+    fn c05_long_inputs(s) {
+        let raw: [u8; 20] = s.bytes();
+        let hl = 17 + s.upto(3);
+        let hay = &raw[..hl];
+        let a = ref_ws_start(hay);
+        let e = ref_ws_end(hay);
+        chk!(s, is_subslice_at(hay, slice::bytes_trim_start(hay), a, hl), "C05.bytes_trim_start.long.eq_trim_ascii_start");
+        chk!(s, is_subslice_at(hay, slice::bytes_trim_end(hay), 0, e), "C05.bytes_trim_end.long.eq_trim_ascii_end");
+        let t = slice::bytes_trim(hay);
+        chk!(s, if a <= e { is_subslice_at(hay, t, a, e) } else { t.len() == 0 }, "C05.bytes_trim.long.eq_trim_ascii");
+        let nb = [s.u8()];
+        let n = &nb[..];
+        let is_pre = hay[0] == nb[0];
+        let is_suf = hay[hl - 1] == nb[0];
+        chk!(s, slice::bytes_start_with(hay, n) == is_pre, "C05.bytes_start_with.long.eq_std");
+        chk!(s, slice::bytes_end_with(hay, n) == is_suf, "C05.bytes_end_with.long.eq_std");
+        chk!(s, match slice::bytes_strip_prefix(hay, n) { Some(r) => is_pre && is_subslice_at(hay, r, 1, hl), None => !is_pre }, "C05.bytes_strip_prefix.long.eq_std");
+        chk!(s, match slice::bytes_strip_suffix(hay, n) { Some(r) => is_suf && is_subslice_at(hay, r, 0, hl - 1), None => !is_suf }, "C05.bytes_strip_suffix.long.eq_std");
+        let ra = ref_reps_start(hay, n);
+        let re = ref_reps_end(hay, n);
+        chk!(s, is_subslice_at(hay, slice::bytes_trim_start_matches(hay, n), ra, hl), "C05.bytes_trim_start_matches.long.maximal_whole_reps");
+        chk!(s, is_subslice_at(hay, slice::bytes_trim_end_matches(hay, n), 0, re), "C05.bytes_trim_end_matches.long.maximal_whole_reps");
+        cov!(s, a == 9 && e == 12, "C05.cover.long_ws_both_sides");
+        cov!(s, ra == 17 && hl == 18, "C05.cover.long_repetition_run");
+    }
+}
+
 macro_rules! c05_btm {
     ($name:ident, $h:literal, $n:literal, $tier:ident) => {
         harness! {
